@@ -113,3 +113,10 @@ Print Assumptions C20_bits_set.
 Print Assumptions C20_bitlist_append.
 Print Assumptions C20_bitlist_pop.
 Print Assumptions C20_union_value.
+
+(* the encoding (bytes and reported count) of a view over the virtual tree is the encoding over the materialised
+   tree, for every type (same result, errors included) *)
+Theorem C20_encoding : forall H src t v m, vr H src v m -> ser_impl H src t v = ser_impl H src t m.
+Proof. exact vr_ser. Qed.
+
+Print Assumptions C20_encoding.
